@@ -355,7 +355,7 @@ def check_curve(case, ctx):
 ENC_KINDS = [
     "valid", "prefix_byte", "x>=p", "x_off_curve", "wrong_y", "uncompressed_bad_prefix",
     "random33", "random65", "random32", "wrong_length", "xonly_zero", "y>=p", "hybrid",
-    "valid_x_in_n_p", "valid_small_x",
+    "valid_x_in_n_p", "valid_small_x", "sec_zero_x",
 ]
 
 
@@ -438,6 +438,11 @@ def check_enc(case, ctx):
         cand = (ec.sec(A, False) * 2)[: case["length"]]
     elif kind == "xonly_zero":
         cand = bytes(32)
+    elif kind == "sec_zero_x":
+        # x = 0 is not on the curve (7 is not a square); the x-only convention "zero means infinity"
+        # does not extend to SEC encodings
+        cand = [b"\x02" + bytes(32), b"\x03" + bytes(32), b"\x04" + bytes(64),
+                b"\x04" + bytes(32) + b32(A[1]), b"\x02" + bytes(64), b"\x03" + bytes(64)][case["prefix"] % 6]
     else:
         raise AssertionError(kind)
     if len(cand) == 32:
@@ -447,7 +452,9 @@ def check_enc(case, ctx):
     st_, got = attempt(S256Point.parse, cand)
     if want is None:
         ctx.label("ref_rejects")
-        ok = st_ == "exc" or (got is not None and got.x is None)
+        # the library's documented x-only convention: 32 zero bytes stand for the point at infinity
+        # (no curve point is returned); every other candidate has to raise
+        ok = st_ == "exc" or (cand == bytes(32) and got is not None and got.x is None)
         require(ok, f"enc/accepts_invalid:{kind}", f"{cand.hex()} -> {got!r}")
     else:
         ctx.label("ref_accepts")
@@ -457,8 +464,7 @@ def check_enc(case, ctx):
     if len(cand) in (33, 65):
         st2, got2 = attempt(S256Point.parse_sec, cand)
         if want is None:
-            require(st2 == "exc" or got2.x is None, f"enc/parse_sec_accepts_invalid:{kind}",
-                    cand.hex())
+            require(st2 == "exc", f"enc/parse_sec_accepts_invalid:{kind}", cand.hex())
 
 
 SUBS = [
